@@ -873,7 +873,7 @@ def prof_addrtype(g, n):
         edge = g.pick([lo, hi, hi, hi])
         delta = g.pick([-2, -1, 0, 0, 1, 2])
         target = edge + delta          # the extreme address we aim for
-        shape = g.pick(["flat", "repeat", "block", "block_repeat", "neg_stride", "nested", "blockref", "ref", "ref"])
+        shape = g.pick(["flat", "repeat", "block", "block_repeat", "neg_stride", "nested", "blockref", "ref", "ref", "ref", "neg_block"])
         name = g.fresh(["Reg", "Obj", "Thing"])
         def leaf(addr, rep=None):
             if kind == "register":
@@ -916,7 +916,26 @@ def prof_addrtype(g, n):
                 cnt, st = g.r.randint(2, 3), g.r.randint(1, 4)
                 ov = {"kind": kind, "address": str(target - (cnt - 1) * st if edge != lo else target + (cnt - 1) * st),
                       "repeat": {"count": str(cnt), "stride": str(st if edge != lo else -st)}}
-            objs = [leaf(g.r.randint(0, 5) if lo == 0 else 0), {"kind": "ref", "name": "Far", "target": name, "override": ov}]
+            # (round 11, N06) the target is repeated itself half of the time: the ref's own repeat must be the one analysed
+            trep = {"count": str(g.r.randint(2, 3)), "stride": str(g.r.randint(1, 2))} if g.chance(0.5) else None
+            objs = [leaf(g.r.randint(0, 5) if lo == 0 else 0, trep), {"kind": "ref", "name": "Far", "target": name, "override": ov}]
+            if g.chance(0.3):
+                # ... and the pair sits in a block with an offset and a repeat of its own
+                boff, bcnt, bst = g.r.randint(0, 6), g.r.randint(1, 2), g.r.randint(1, 3)
+                shift = boff + (bcnt - 1) * bst
+                if "address" in ov and edge != lo:
+                    ov["address"] = str(int(ov["address"]) - shift)
+                    objs = [{"kind": "block", "name": "Bank", "address_offset": str(boff), "repeat": {"count": str(bcnt), "stride": str(bst)}, "objects": objs}]
+        elif shape == "neg_block":
+            # (round 11, N08) a block at a negative offset whose contents end up at non-negative addresses: the internal
+            # address type must still hold the (negative) offset the block accessor adds
+            off = g.r.randint(1, 60)
+            tgt = target if edge != lo else g.r.randint(0, 5)
+            inner = [leaf(tgt + off)]
+            if g.chance(0.4):
+                inner.append({"kind": "block", "name": "Deep", "address_offset": str(-g.r.randint(1, 9)), "objects": [
+                    {"kind": "register", "name": "DeepReg", "address": str(off + 9 + g.r.randint(0, 5)), "size_bits": 8, "fields": []}]})
+            objs = [{"kind": "block", "name": "Blk", "address_offset": str(-off), "objects": inner}]
         else:  # blockref
             off = g.r.randint(1, 30)
             objs = [{"kind": "block", "name": "Blk", "objects": [leaf(g.r.randint(0, 5) if lo == 0 else 0)]},
@@ -1054,7 +1073,7 @@ def cases_for(prop, tier, seed):
             ad = allowed_pair_adef(g)
             # make both sides readable registers more often: read_all_registers must visit each of them, address coinciding or not
             pairs.append(case(ad, pick_syntax(g, (4, 4, 1, 1)), "mixed"))
-        return CORPUS.get(prop, []) + prof_mixed(g, 340 * k, depth=3, neg=True, field_kw={"conv_p": 0.05}, block_ref_p=0.15, repeat_p=0.5) + prof_pow2(g, 60 * k) + pairs
+        return CORPUS.get(prop, []) + prof_mixed(g, 340 * k, depth=3, neg=True, field_kw={"conv_p": 0.05}, block_ref_p=0.15, repeat_p=0.5) + prof_pow2(g, 60 * k) + pairs + prof_addrtype(g, 80 * k)
     return _cases_for_base2(prop, tier, seed)
 
 
@@ -1500,7 +1519,16 @@ def cases_for(prop, tier, seed):
                 cfgx = {"register_address_type": ty, "command_address_type": ty, "buffer_address_type": ty, "default_byte_order": "LE"}
                 lits.append(case({"config": cfgx, "objects": [o, {"kind": "register", "name": "Low", "address": "1", "size_bits": 8, "fields": []}]},
                                  pick_syntax(g, (3, 3, 2, 2)), "nocfg"))
-        return CORPUS.get(prop, []) + [f14, f18, f19, f23] + l01 + f21 + edge + lits + [case(nocfg_adef(g), pick_syntax(g, (3, 3, 2, 2)), "nocfg") for _ in range(90 * k)]
+        # (round 11, N08) blocks at negative offsets whose contents sit at non-negative addresses, next to the plain negative shapes:
+        # `self.base_address + <negative literal>` needs a signed internal type although no object has a negative address
+        negblk = []
+        for ty, off, a in (("i8", 8, 12), ("i16", 40, 40), ("i32", 300, 1000), ("u8", 5, 9), ("i8", 8, 3), ("i64", 1, 1)):
+            inner = [{"kind": "register", "name": "Inside", "address": str(a), "size_bits": 8, "fields": []},
+                     {"kind": g.pick(["command", "buffer"]), "name": "Other", "address": str(a + 1)}]
+            cfgx = {"register_address_type": ty, "command_address_type": ty, "buffer_address_type": ty, "default_byte_order": "LE"}
+            negblk.append(case({"config": cfgx, "objects": [{"kind": "block", "name": "Blk", "address_offset": str(-off), "objects": inner}]},
+                               pick_syntax(g, (3, 3, 2, 2)), "nocfg"))
+        return CORPUS.get(prop, []) + [f14, f18, f19, f23] + l01 + f21 + edge + lits + negblk + [case(nocfg_adef(g), pick_syntax(g, (3, 3, 2, 2)), "nocfg") for _ in range(90 * k)]
     return _cases_for_base5(prop, tier, seed)
 
 
